@@ -7,6 +7,7 @@ import (
 	"errors"
 	"fmt"
 	"io"
+	"math/rand"
 	"net/http"
 	"runtime/pprof"
 	"strings"
@@ -227,7 +228,9 @@ func callSetup() {
 		st.entered.Store(true)
 		defer close(st.exited)
 		if st.sc.H.Hflood {
+			// (incompressible, so that what the closing client drains is on the wire quickly whatever was negotiated)
 			chunk := make([]byte, 64<<10)
+			rand.New(rand.NewSource(int64(len(chunk)))).Read(chunk)
 			for i := 0; i < 16384; i++ { // (1 GiB: far beyond anything a closing client drains)
 				chunk[0] = byte(i%250 + 1)
 				if err := ss.Send(&BV{Value: chunk}); err != nil {
